@@ -258,9 +258,11 @@ fn run_net(c: &Case) -> Result<Result<NetOut, String>, BedErr> {
                             // wait until the death has been observed
                             let reg = node.registry();
                             let t0 = std::time::Instant::now();
+                            let mut rounds = 0usize;
                             while reg.get(&procs[p].0).await.is_some() {
                                 drain().await;
-                                if t0.elapsed() > Duration::from_secs(5) {
+                                rounds += 1;
+                                if t0.elapsed() > Duration::from_secs(5) && rounds >= crate::nodebed::MIN_WAIT_ROUNDS {
                                     problems.push(("process-does-not-terminate".into(), format!("{}: process {}", $phase, p)));
                                     break;
                                 }
